@@ -44,6 +44,13 @@ def stall_runs(eng, rep, topo, victim, n, steps, tag):
             pipe.start()
             at = rng.randrange(5, 200)
             run_schedule(pipe, rng, at, p_timeout=0.02, quiet=10 ** 9)
+            # "stops taking frames" presupposes a consumer that is taking frames: a task frozen before its connection
+            # handshake completed is not yet a consumer of the publisher (the model's `ahead` counts only publishes that
+            # include the client) - run on until the victim has been handed at least one set
+            extra = 0
+            while not pipe.delivered[victim] and extra < 400:
+                run_schedule(pipe, rng, 10, p_timeout=0.02, quiet=10 ** 9)
+                extra += 10
             stall_step = pipe.world.step_no
             pipe.stall(victim)
             run_schedule(pipe, rng, steps, p_timeout=0.02, quiet=400)
